@@ -26,9 +26,14 @@ RULE = (
     "Behavioural forwarding cases: a crafted 2-criteria matrix whose k nearest donors are unambiguous, KNNImputer with "
     "n_neighbors 1-5 and weights uniform/distance against the documented rule (mean / inverse-distance mean of the k nearest); "
     "IterativeImputer(max_iter=0) against the initial strategy's statistic; sample_posterior runs repeated with the same "
-    "random_state. Out-of-domain stream (SimpleImputer only, model correspondence only): a wholly missing criterion. "
+    "random_state. Re-used instances: about 40% of the imputer cases (and of the crafted k-nearest cases) are two-step: the SAME "
+    "imputer object is first applied to a warm-up matrix (same number of criteria and fresh values / a twin with the same "
+    "shape, labels, objectives and weights but re-drawn values and gaps / a different number of criteria and alternatives), "
+    "then to the case's matrix; every clause is evaluated on both outputs, each against the matrix transformed at that step. "
+    "Out-of-domain stream (SimpleImputer only, model correspondence only): a wholly missing criterion. "
     "Thorough tier adds the exhaustive enumeration for SimpleImputer: every 4x1 matrix over {missing,0,1,2} and every 3x2 "
-    "matrix over {missing,1,2} with an observed value per criterion x 4 strategies. "
+    "matrix over {missing,1,2} with an observed value per criterion x 4 strategies; and every ordered pair (warm-up, matrix) "
+    "of 3x1 matrices over {missing,1,2} x 4 strategies on one re-used SimpleImputer. "
     "Non-trivial: at least one missing cell; distinct by case hash."
 )
 ASSUMPTIONS = [
@@ -71,8 +76,8 @@ def _pattern(rng, m, n, style):
     return mask
 
 
-def _dm(rng, style=None, family=None):
-    m, n = rng.randint(3, 12), rng.randint(1, 6)
+def _dm(rng, style=None, family=None, m=None, n=None):
+    m, n = m or rng.randint(3, 12), n or rng.randint(1, 6)
     family = family or rng.choice(["dyadic", "dyadic", "dyadic", "float"])
     dm = G.dm_case(rng, m=m, n=n, family=family, positive=rng.random() < 0.6, ties=rng.choice([0.3, 0.6, 0.8]), dups=0.15)
     style = style or rng.choice(["random", "random", "random", "rows", "heavy", "none"])
@@ -150,7 +155,32 @@ def _iter_kw(rng, n):
     return kw
 
 
-def _impute_case(rng, cls=None, style=None):
+WARM_MODES = ["same-n", "same-n", "twin", "twin", "other-shape"]
+
+
+def _warm(rng, dm, kw, mode=None):
+    """the matrix the same imputer object sees BEFORE the case's matrix (in the property's domain: >= 1 observed value per
+    criterion); `same-n`: same number of criteria, everything else fresh; `twin`: same shape, labels, objectives, weights,
+    values and gaps re-drawn; `other-shape`: another number of criteria (and of alternatives)"""
+    m, n = len(dm["matrix"]), len(dm["criteria"])
+    mode = mode or rng.choice(WARM_MODES)
+    if mode == "other-shape" and any(isinstance(kw.get(k), list) for k in ("min_value", "max_value")):
+        mode = "same-n"  # per-criterion bounds fix the number of criteria
+    style = rng.choice(["random", "random", "random", "rows", "heavy", "none"])
+    if mode == "other-shape":
+        n2 = rng.choice([k for k in range(1, 7) if k != n])
+        m2 = rng.choice([k for k in range(3, 13) if k != m])
+        w = _dm(rng, style, m=m2, n=n2)
+    elif mode == "twin":
+        w = _dm(rng, style, family=dm["family"], m=m, n=n)
+        for key in ("alternatives", "criteria", "objectives", "weights"):
+            w[key] = list(dm[key])
+    else:
+        w = _dm(rng, style, m=rng.choice([m, rng.randint(3, 12)]), n=n)
+    return {"mode": mode, "dm": w}
+
+
+def _impute_case(rng, cls=None, style=None, warm=None):
     cls = cls or rng.choice(["Simple", "Simple", "Simple", "KNN", "KNN", "Iterative", "Iterative"])
     dm = _dm(rng, style)
     n = len(dm["criteria"])
@@ -158,12 +188,14 @@ def _impute_case(rng, cls=None, style=None):
     case = {"kind": "impute", "cls": cls, "kw": kw, "dm": dm, "sentinel": None}
     if rng.random() < 0.2:
         case["sentinel"] = SENTINEL
+    if warm or (warm is None and rng.random() < 0.4):
+        case["warm"] = _warm(rng, dm, kw, warm if isinstance(warm, str) else None)
     return case
 
 
 def _empty_column_case(rng):
     """out of the property's domain: a criterion without any observed value (SimpleImputer, model correspondence)"""
-    case = _impute_case(rng, cls="Simple", style=rng.choice(["random", "heavy", "none"]))
+    case = _impute_case(rng, cls="Simple", style=rng.choice(["random", "heavy", "none"]), warm=False)
     m = len(case["dm"]["matrix"])
     for j in rng.sample(range(len(case["dm"]["criteria"])), rng.choice([1, 1, 2]) if len(case["dm"]["criteria"]) > 1 else 1):
         for i in range(m):
@@ -172,7 +204,7 @@ def _empty_column_case(rng):
     return case
 
 
-def _knn_k_case(rng):
+def _knn_rows(rng):
     """2 criteria: x fully observed, y missing for the receivers; distances |dx| from every receiver to the donors all distinct"""
     while True:
         nd, nr = rng.randint(2, 8), rng.randint(1, 3)
@@ -187,22 +219,34 @@ def _knn_k_case(rng):
     rows = [[d / 8, y] for d, y in zip(donors, ys)] + [[r / 8, None] for r in recv]
     order = list(range(len(rows)))
     rng.shuffle(order)
-    return {"kind": "knn_k", "rows": [rows[i] for i in order], "k": rng.randint(1, 5),
+    return [rows[i] for i in order]
+
+
+def _knn_k_case(rng, warm=None):
+    case = {"kind": "knn_k", "rows": _knn_rows(rng), "k": rng.randint(1, 5),
             "weights": rng.choice(["uniform", "distance"]), "swap": rng.random() < 0.5}
+    if warm or (warm is None and rng.random() < 0.4):
+        case["warm_rows"] = _knn_rows(rng)  # the same KNNImputer object sees these donors first
+    return case
 
 
 def _exhaustive():
     cases = []
 
-    def add(rows, strategy):
+    def mk(rows):
         m, n = len(rows), len(rows[0])
-        dm = {"matrix": [[None if x is None else float(x) for x in r] for r in rows], "objectives": [1, -1][:n],
-              "weights": [0.25, 0.75][:n], "alternatives": ["a", "b", "c", "d"][:m], "criteria": ["C0", "C1"][:n],
-              "family": "dyadic", "style": "exhaustive"}
+        return {"matrix": [[None if x is None else float(x) for x in r] for r in rows], "objectives": [1, -1][:n],
+                "weights": [0.25, 0.75][:n], "alternatives": ["a", "b", "c", "d"][:m], "criteria": ["C0", "C1"][:n],
+                "family": "dyadic", "style": "exhaustive"}
+
+    def add(rows, strategy, warm_rows=None):
         kw = {"strategy": strategy}
         if strategy == "constant":
             kw["fill_value"] = 5
-        cases.append({"kind": "impute", "cls": "Simple", "kw": kw, "dm": dm, "sentinel": None})
+        case = {"kind": "impute", "cls": "Simple", "kw": kw, "dm": mk(rows), "sentinel": None}
+        if warm_rows is not None:
+            case["warm"] = {"mode": "twin", "dm": mk(warm_rows)}
+        cases.append(case)
 
     for flat in itertools.product((None, 0, 1, 2), repeat=4):
         if all(x is None for x in flat):
@@ -215,6 +259,11 @@ def _exhaustive():
             continue
         for s in STRATEGIES:
             add(rows, s)
+    cols = [c for c in itertools.product((None, 1, 2), repeat=3) if any(x is not None for x in c)]
+    for warm in cols:
+        for main in cols:
+            for s in STRATEGIES:
+                add([[x] for x in main], s, [[x] for x in warm])
     return cases
 
 
@@ -227,6 +276,10 @@ def gen(ctx):
         for cls in ("Simple", "KNN", "Iterative"):
             for _ in range(ctx.n(6, 200)):
                 cases.append(_impute_case(rng, cls=cls, style=style))
+    for mode in ("same-n", "twin", "other-shape"):
+        for cls in ("Simple", "Simple", "KNN", "Iterative"):
+            for _ in range(ctx.n(8, 250)):
+                cases.append(_impute_case(rng, cls=cls, warm=mode))
     for _ in range(ctx.n(80, 2500)):
         cases.append(_knn_k_case(rng))
     for _ in range(ctx.n(30, 800)):
@@ -331,30 +384,51 @@ def observe(case):
         if case["kind"] == "knn_k":
             from skcriteria.preprocessing import impute as I
 
-            rows = [list(r) for r in case["rows"]]
-            if case["swap"]:
-                rows = [[r[1], r[0]] for r in rows]
-            dm = G.mkdm({"matrix": _np_matrix(rows, None).tolist(), "objectives": [1, -1], "weights": [0.5, 0.5],
-                         "alternatives": [f"A{i}" for i in range(len(rows))], "criteria": ["x", "y"]})
-            try:
-                res = I.KNNImputer(n_neighbors=case["k"], weights=case["weights"]).transform(dm)
-            except Exception as e:
-                return {"err": G.err_name(e), "msg": str(e)[:200]}
-            out = np.asarray(res.matrix.to_numpy(), dtype=float)
-            if case["swap"]:
-                out = out[:, ::-1]
-            return {"matrix": [[None if math.isnan(x) else float(x) for x in r] for r in out.tolist()]}
+            imp = I.KNNImputer(n_neighbors=case["k"], weights=case["weights"])
+
+            def run(rows):
+                rows = [list(r) for r in rows]
+                if case["swap"]:
+                    rows = [[r[1], r[0]] for r in rows]
+                dm = G.mkdm({"matrix": _np_matrix(rows, None).tolist(), "objectives": [1, -1], "weights": [0.5, 0.5],
+                             "alternatives": [f"A{i}" for i in range(len(rows))], "criteria": ["x", "y"]})
+                try:
+                    res = imp.transform(dm)
+                except Exception as e:
+                    return {"err": G.err_name(e), "msg": str(e)[:200]}
+                out = np.asarray(res.matrix.to_numpy(), dtype=float)
+                if case["swap"]:
+                    out = out[:, ::-1]
+                return {"matrix": [[None if math.isnan(x) else float(x) for x in r] for r in out.tolist()]}
+
+            first = run(case["warm_rows"]) if case.get("warm_rows") else None  # the same object, applied before
+            o = run(case["rows"])
+            if first is not None:
+                o["warm"] = first
+            return o
         sentinel = case.get("sentinel")
-        cells = case["dm"]["matrix"]
-        inp = _np_matrix(cells, sentinel)
-        mask = np.array([[x is not None for x in row] for row in cells], dtype=bool)
-        dm = _mkdm(case["dm"], sentinel)
         try:
             imp = _build(case["cls"], case["kw"], sentinel)
-            res = imp.transform(dm)
         except Exception as e:
-            return {"err": G.err_name(e), "msg": f"{type(e).__name__}: {e}"[:200]}
-        o = _dm_obs(res, inp, mask)
+            o = {"err": G.err_name(e), "msg": f"{type(e).__name__}: {e}"[:200]}
+            return dict(o, warm=dict(o)) if case.get("warm") else o
+
+        def run(d):
+            cells = d["matrix"]
+            inp = _np_matrix(cells, sentinel)
+            mask = np.array([[x is not None for x in row] for row in cells], dtype=bool)
+            try:
+                r = imp.transform(_mkdm(d, sentinel))
+            except Exception as e:
+                return None, {"err": G.err_name(e), "msg": f"{type(e).__name__}: {e}"[:200]}
+            return r, _dm_obs(r, inp, mask)
+
+        first = run(case["warm"]["dm"])[1] if case.get("warm") else None  # the same object, applied to the warm-up matrix
+        res, o = run(case["dm"])
+        if first is not None:
+            o["warm"] = first
+        if res is None:
+            return o
         kw = case["kw"]
         if case["cls"] == "Iterative" and kw.get("sample_posterior") and isinstance(kw.get("random_state"), int):
             again = _build(case["cls"], kw, sentinel).transform(_mkdm(case["dm"], sentinel))
@@ -377,7 +451,13 @@ def _finite(mat):
 def requests(case, obs):
     if case["kind"] != "impute":
         return []
-    cells = case["dm"]["matrix"]
+    reqs = _requests_one(case, case["dm"]["matrix"], obs)
+    if case.get("warm"):  # after the main matrix's own requests
+        reqs = reqs + _requests_one(case, case["warm"]["dm"]["matrix"], obs["warm"])
+    return reqs
+
+
+def _requests_one(case, cells, obs):
     if case["cls"] == "Simple":
         kw = case["kw"]
         fv = kw.get("fill_value")
@@ -460,27 +540,44 @@ def judge(case, obs, replies):
 
     if case["kind"] == "knn_k":
         lab = f"KNNImputer(n_neighbors={case['k']}, weights={case['weights']!r})"
-        if "err" in obs:
-            prop(f"{lab} refused a matrix with an observed value per criterion: {obs['err']} {obs.get('msg')}")
-            return out
-        rows = case["rows"]
-        for i, v in _knn_expected(rows, case["k"], case["weights"]).items():
-            got = obs["matrix"][i][1]
-            sc = _scale([r[1] for r in rows if r[1] is not None])
-            if got is None or abs(got - float(v)) > TOL * sc:
-                prop(f"{lab}: the gap of alternative {i} is not the {'mean' if case['weights'] == 'uniform' else 'inverse-distance weighted mean'} "
-                     f"of its {case['k']} nearest donors — constructor parameter not honoured", float(v), got)
-                break
-        for i, r in enumerate(rows):
-            for j in (0, 1):
-                if r[j] is not None and (obs["matrix"][i][j] is None or _bits(obs["matrix"][i][j]) != _bits(r[j])):
-                    prop(f"{lab}: observed cell ({i},{j}) changed", r[j], obs["matrix"][i][j])
-                    return out
+        if case.get("warm_rows"):
+            _judge_knn(case, case["warm_rows"], obs["warm"], lab + " [first application of the object]", prop)
+            lab += f" [same object, already applied to another {len(case['warm_rows'])}x2 matrix]"
+        _judge_knn(case, case["rows"], obs, lab, prop)
         return out
 
-    dm, cells = case["dm"], case["dm"]["matrix"]
-    m, n = len(cells), len(cells[0])
+    n_main = len(_requests_one(case, case["dm"]["matrix"], obs))
     lab = _label(case)
+    if case.get("warm"):
+        w = case["warm"]["dm"]
+        _judge_one(case, w, obs["warm"], replies[n_main:], lab + " [first application of the object, warm-up matrix]", prop, corr)
+        lab += f" [same object, already applied to a {len(w['matrix'])}x{len(w['criteria'])} {case['warm']['mode']} matrix]"
+    _judge_one(case, case["dm"], obs, replies[:n_main], lab, prop, corr)
+    return out
+
+
+def _judge_knn(case, rows, obs, lab, prop):
+    if "err" in obs:
+        prop(f"{lab} refused a matrix with an observed value per criterion: {obs['err']} {obs.get('msg')}")
+        return
+    for i, v in _knn_expected(rows, case["k"], case["weights"]).items():
+        got = obs["matrix"][i][1]
+        sc = _scale([r[1] for r in rows if r[1] is not None])
+        if got is None or abs(got - float(v)) > TOL * sc:
+            prop(f"{lab}: the gap of alternative {i} is not the {'mean' if case['weights'] == 'uniform' else 'inverse-distance weighted mean'} "
+                 f"of its {case['k']} nearest donors — constructor parameter not honoured", float(v), got)
+            break
+    for i, r in enumerate(rows):
+        for j in (0, 1):
+            if r[j] is not None and (obs["matrix"][i][j] is None or _bits(obs["matrix"][i][j]) != _bits(r[j])):
+                prop(f"{lab}: observed cell ({i},{j}) changed", r[j], obs["matrix"][i][j])
+                return
+
+
+def _judge_one(case, dm, obs, replies, lab, prop, corr):
+    """every clause of the property for ONE application of the imputer: `dm` is the matrix transformed at that step"""
+    cells = dm["matrix"]
+    m, n = len(cells), len(cells[0])
     kw = case["kw"]
     sentinel = case.get("sentinel")
     rep = replies[0] if replies else None
@@ -514,33 +611,33 @@ def judge(case, obs, replies):
                 break
 
     if not _in_domain(cells):
-        return out  # "a wholly missing criterion aside": model correspondence only
+        return  # "a wholly missing criterion aside": model correspondence only
 
     # ---- the property
     if "err" in obs:
         prop(f"{lab} refused a matrix with an observed value per criterion: {obs['err']} ({obs.get('msg')})", "an imputed matrix", obs["err"])
-        return out
+        return
     if obs["shape"] != [m, n]:
         prop(f"{lab}: the shape changed", [m, n], obs["shape"])
-        return out
+        return
     res = obs["matrix"]
     for i in range(m):
         for j in range(n):
             if cells[i][j] is not None and (res[i][j] is None or _bits(res[i][j]) != _bits(cells[i][j])):
                 prop(f"{lab}: the observed cell ({dm['alternatives'][i]}, {dm['criteria'][j]}) does not hold its original value",
                      cells[i][j], res[i][j])
-                return out
+                return
     if not obs["observed_bits_equal"]:
         prop(f"{lab}: observed cells are not bit-identical (tobytes on the observed mask)")
-        return out
+        return
     for i in range(m):
         for j in range(n):
             if cells[i][j] is None and (res[i][j] is None or (sentinel is not None and res[i][j] == sentinel)):
                 prop(f"{lab}: the cell ({dm['alternatives'][i]}, {dm['criteria'][j]}) is still missing", "a value", res[i][j])
-                return out
+                return
     if obs["nan_left"]:
         prop(f"{lab}: {obs['nan_left']} NaN left in the matrix")
-        return out
+        return
     if obs["alts"] != dm["alternatives"] or obs["criteria"] != dm["criteria"]:
         prop(f"{lab}: labels changed", [dm["alternatives"], dm["criteria"]], [obs["alts"], obs["criteria"]])
     if obs["objectives"] != dm["objectives"]:
@@ -588,8 +685,7 @@ def judge(case, obs, replies):
                     if cells[i][j] is None and not (lj <= res[i][j] <= hj):
                         prop(f"{lab}: the imputed value of ({dm['alternatives'][i]}, {dm['criteria'][j]}) is outside "
                              f"[min_value, max_value] — constructor parameter not honoured", [lj, hj], res[i][j])
-                        return out
-    return out
+                        return
 
 
 def nontrivial(case, obs):
@@ -600,9 +696,11 @@ def nontrivial(case, obs):
 
 def tags(case, obs):
     if case["kind"] == "knn_k":
-        return ["knn_k", f"knn_k:k={case['k']}", "knn_k:" + case["weights"]]
+        return ["knn_k", f"knn_k:k={case['k']}", "knn_k:" + case["weights"]] + (["knn_k:two-step"] if case.get("warm_rows") else [])
     t = ["cls:" + case["cls"], "style:" + str(case["dm"].get("style")), "family:" + str(case["dm"].get("family"))]
     kw, cells = case["kw"], case["dm"]["matrix"]
+    if case.get("warm"):
+        t += ["two-step", "two-step:" + case["warm"]["mode"], "two-step:" + case["cls"]]
     if case.get("sentinel") is not None:
         t.append("sentinel-missing_values")
     if "err" in obs:
